@@ -301,7 +301,41 @@ def F16():
         shutil.rmtree(d)
 
 
-ALL = ["F1", "F2", "F3", "F4", "F5", "F6", "F7", "F8", "F9", "F11", "F13", "F14", "F15", "F16"]
+def _nc_positive_integer_program(body):
+    """a NetCDF variable of non-negative integers read as 'Positive Integer' (numpy.uint), then `body`"""
+    import numpy
+    from netCDF4 import Dataset
+    d = tempfile.mkdtemp(prefix="mpv_")
+    try:
+        with Dataset(os.path.join(d, "in.nc"), "w") as ds:
+            ds.createDimension("x", 3)
+            a = ds.createVariable("a", "i4", ("x",)); a[:] = numpy.array([2, 3, 5])
+            b = ds.createVariable("b", "i4", ("x",)); b[:] = numpy.array([3, 3, 9])
+        src = ('A = EEMSRead(InFileName="in.nc", InFieldName="a", DataType="Positive Integer")\n'
+               'B = EEMSRead(InFileName="in.nc", InFieldName="b", DataType="Positive Integer")\n' + body)
+        from mpilot.program import Program
+        p = Program.from_source(src, libraries=("mpilot.libraries.eems.basic", "mpilot.libraries.eems.netcdf", "mpilot.libraries.eems.fuzzy"), working_dir=d)
+        p.run()
+        return p
+    finally:
+        shutil.rmtree(d)
+
+
+def F17():
+    p = _nc_positive_integer_program("N = Normalize(InFieldName=A)")
+    got = p.commands["N"].result.tolist()
+    if [round(x, 9) for x in got] != [0.0, round(1 / 3.0, 9), 1.0]:
+        return "Normalize of the 'Positive Integer' values [2, 3, 5] = %r (expected [0, 1/3, 1])" % (got,)
+
+
+def F18():
+    p = _nc_positive_integer_program("D = AMinusB(A=A, B=B)")
+    got = p.commands["D"].result.tolist()
+    if [float(x) for x in got] != [-1.0, 0.0, -4.0]:
+        return "AMinusB of the 'Positive Integer' values [2, 3, 5] - [3, 3, 9] = %r (expected [-1, 0, -4])" % (got,)
+
+
+ALL = ["F1", "F2", "F3", "F4", "F5", "F6", "F7", "F8", "F9", "F11", "F13", "F14", "F15", "F16", "F17", "F18"]
 
 if __name__ == "__main__":
     sel = sys.argv[1:] or ALL
